@@ -21,6 +21,7 @@ import BV.Props.C15
 import BV.Props.C01Chain
 import BV.Gen.FnC15
 import BV.Model.Window
+import BV.Lemmas.FragmentWindow
 
 namespace BV.Props.C15Window
 open BV.Bits BV.Header BV.HeaderSpec BV.Recoder BV.MetaBlock BV.Cbr BV.Hasher BV.MatchFinder BV.PrefixArith
@@ -214,6 +215,187 @@ theorem lz77_copies_within_window (w : WordOracle) (np nd window : Nat) (mb : By
     · cases hs : decStep w np nd window mb s c with
       | none => simp only [hs] at h; cases h
       | some s' => simp only [hs] at h; exact ih s' d h
+
+/-! ## a decoder that keeps only one window of history -/
+
+theorem copyBytes_drop : ∀ (n d : Nat) (out : Bytes) (k : Nat), 1 ≤ d → d + k ≤ out.length →
+    (copyBytes n d out).drop k = copyBytes n d (out.drop k) := by
+  intro n
+  induction n with
+  | zero => intro d out k _ _; rfl
+  | succ n ih =>
+    intro d out k h1 h2
+    simp only [copyBytes]
+    rw [ih d _ k h1 (by simp; omega)]
+    congr 1
+    rw [List.drop_append_of_le_length (by omega)]
+    congr 2
+    simp only [List.length_drop, List.getD_eq_getElem?_getD, List.getElem?_drop]
+    congr 2
+    omega
+
+theorem decStep_drop (w : WordOracle) (np nd window : Nat) (mb : Bytes) (s : DecSt) (c : Cmd) (k : Nat)
+    (hk : k + window ≤ s.out.length) :
+    decStep w np nd window mb ⟨s.out.drop k, s.ring, s.cursor⟩ c
+      = (decStep w np nd window mb s c).map (fun s' => { s' with out := s'.out.drop k }) := by
+  have e1 : ∀ X : Bytes, s.out.drop k ++ X = (s.out ++ X).drop k := by
+    intro X; rw [List.drop_append_of_le_length (by omega)]
+  unfold decStep
+  simp only [e1]
+  generalize hout : s.out ++ List.take c.insertLen (List.drop s.cursor mb) = out
+  have hlen : k + window ≤ out.length := by rw [← hout]; simp; omega
+  have e2 : min (out.drop k).length window = min out.length window := by simp; omega
+  simp only [e2]
+  split
+  · rfl
+  · split
+    · rfl
+    · split
+      · rfl
+      · cases hd : rfcDistance np nd s.ring (c.distPrefix % 1024) c.distExtra with
+        | none => rfl
+        | some r =>
+          obtain ⟨d, upd⟩ := r
+          simp only []
+          split
+          · rfl
+          · split
+            · split
+              · rfl
+              · rename_i hle _
+                simp only [Option.map_some]
+                rw [copyBytes_drop _ _ _ _ (by omega) (by omega)]
+            · split
+              · rfl
+              · cases hw : w (copyLenCode c.copyLenField)
+                    ((d.toNat - min out.length window - 1) % 2 ^ dictSizeBits.getD (copyLenCode c.copyLenField) 0)
+                    ((d.toNat - min out.length window - 1) / 2 ^ dictSizeBits.getD (copyLenCode c.copyLenField) 0) with
+                | none => simp only [hw, Option.map_none]
+                | some word =>
+                  simp only [hw]
+                  split
+                  · rfl
+                  · simp only [Option.map_some]
+                    rw [List.drop_append_of_le_length (by omega)]
+
+/-- the decoder's output only grows -/
+theorem decStep_out_mono (w : WordOracle) (np nd window : Nat) (mb : Bytes) (s : DecSt) (c : Cmd) (s' : DecSt)
+    (h : decStep w np nd window mb s c = some s') : s.out.length ≤ s'.out.length := by
+  unfold decStep at h
+  simp only [] at h
+  split at h
+  · cases h
+  · split at h
+    · cases h
+    · split at h
+      · simp only [Option.some.injEq] at h; subst h; simp
+      · split at h
+        · cases h
+        · split at h
+          · cases h
+          · split at h
+            · split at h
+              · cases h
+              · simp only [Option.some.injEq] at h; subst h
+                simp [BV.Recoder.copyBytes_length]; omega
+            · split at h
+              · cases h
+              · split at h
+                · cases h
+                · split at h
+                  · cases h
+                  · simp only [Option.some.injEq] at h; subst h; simp
+
+theorem decSteps_drop (w : WordOracle) (np nd window : Nat) (mb : Bytes) (cs : List Cmd) :
+    ∀ (s : DecSt) (k : Nat), k + window ≤ s.out.length →
+      decSteps w np nd window mb ⟨s.out.drop k, s.ring, s.cursor⟩ cs
+        = (decSteps w np nd window mb s cs).map (fun s' => { s' with out := s'.out.drop k }) := by
+  induction cs with
+  | nil => intro s k _; rfl
+  | cons c cs ih =>
+    intro s k hk
+    simp only [decSteps]
+    rw [decStep_drop w np nd window mb s c k hk]
+    cases hs : decStep w np nd window mb s c with
+    | none => rfl
+    | some s' =>
+      simp only [Option.map_some]
+      have hmono : s.out.length ≤ s'.out.length := decStep_out_mono w np nd window mb s c s' hs
+      exact ih s' k (by omega)
+
+/-- **decoder_limited_to_declared_window** (the bounded-memory reading of "a decoder limited to the declared
+window can decode the stream"): the RFC decoder needs, of everything it has produced, only the last
+`window` bytes.  Replaying any command list from a history of which all but the last `window` (or more)
+bytes have been DISCARDED (`hist.drop k`, `k + window ≤ |hist|`) succeeds exactly when the full replay does
+and produces the full result minus the discarded bytes — for every window, command list, word oracle.
+With `window = 2^W − 16` read from the header this is a decoder with a `2^W`-byte ring buffer. -/
+theorem decoder_limited_to_declared_window (w : WordOracle) (np nd window : Nat) (mb : Bytes) (ring : List Int)
+    (hist : Bytes) (cmds : List Cmd) (k : Nat) (hk : k + window ≤ hist.length) :
+    replayCommands w np nd window mb ring (hist.drop k) cmds
+      = (replayCommands w np nd window mb ring hist cmds).map (fun out => out.drop k) := by
+  unfold replayCommands
+  have := decSteps_drop w np nd window mb cmds ⟨hist, ring, 0⟩ k hk
+  simp only [] at this
+  rw [this]
+  cases decSteps w np nd window mb ⟨hist, ring, 0⟩ cmds <;> rfl
+
+/-- the two together: the blocks of `emitted_distances_within_declared_window` are replayed to the block by
+a decoder that kept only `2^W − 16` bytes (W read from the header) of the history -/
+theorem cbr_block_decodes_with_window_memory (wo : WordOracle) (W : Nat) (mb : Bytes) (ring : List Int) (hist : Bytes)
+    (cmds : List Cmd) (h : replayCommands wo 0 0 (2 ^ W - 16) mb ring hist cmds = some (hist ++ mb))
+    (hlong : 2 ^ W - 16 ≤ hist.length) :
+    replayCommands wo 0 0 (2 ^ W - 16) mb ring (hist.drop (hist.length - (2 ^ W - 16))) cmds
+      = some (hist.drop (hist.length - (2 ^ W - 16)) ++ mb) := by
+  rw [decoder_limited_to_declared_window wo 0 0 (2 ^ W - 16) mb ring hist cmds _ (by omega), h]
+  simp only [Option.map_some]
+  rw [List.drop_append_of_le_length (by omega)]
+
+/-- window 4: one literal, then a copy of 2 bytes from distance 4 (last distance), replayed on a history cut to its last 4 bytes -/
+example : replayCommands (fun _ _ _ => none) 0 0 4 [9, 2, 3] [4, 11, 15, 16] ([5, 6, 7, 1, 2, 3, 4].drop 3)
+    [⟨1, 2, 0, getLengthCode 1 2 true, 0⟩] = some ([1, 2, 3, 4, 9, 2, 3]) := by decide
+
+
+/-! ## quality 0 / 1: the fragment writers
+
+The header of a quality 0/1 stream declares `max(lgwin, 18)`; `compress_fragment_fast` /
+`compress_fragment_two_pass` never consult `lgwin` for distances: a candidate is used only when
+`ip − candidate ≤ MAX_DISTANCE = 262128 = 2^18 − 16` (the hash table holds positions of the current
+fragment only).  Stated here over the two-pass model BV/Model/Fragment.lean: the guard lemmas
+(`BV.Fragment.scan_candidate_within_table_window`, BV/Lemmas/FragmentWindow.lean; the loop of immediate matches `chain` carries the same guard `wsub c.ip cand > 262128 → stop` textually), the parameter side
+(`q01_declared_window_covers_table_window`) and the decoder side (`applyCopy_lz77_window_mono`: an LZ77 copy
+within a smaller window is executed identically by a decoder with any larger window — the fragment
+writers emit no static-dictionary references, so replaying their commands with the DECLARED window instead
+of 2^18 − 16 changes nothing).  NOT proved: the induction through `matchLoop` / `chain` / `createCommands`
+that every distance word in the command buffer encodes such a distance (`emitDistanceQ1` of a guarded
+`wsub`), i.e. hypothesis (b) of BV/Props/C01Fragment.lean. -/
+
+/-- quality ≤ 1: the declared window is at least the fragment writers' `MAX_DISTANCE` -/
+theorem q01_declared_window_covers_table_window (gp : GenParams) (hq : gp.quality ≤ 1) :
+    262128 ≤ declaredWindow gp ∧ 18 ≤ declaredWbits gp := by
+  have h18 : 18 ≤ declaredWbits gp := by
+    unfold declaredWbits clampWindow
+    simp only [hq, if_true]
+    omega
+  have := Nat.pow_le_pow_right (show 0 < 2 by decide) h18
+  refine ⟨?_, h18⟩
+  unfold declaredWindow
+  have e : (2 : Nat) ^ 18 = 262144 := by decide
+  omega
+
+/-- decoder side: a copy that is an LZ77 copy under window `W` (resolved distance ≤ min(produced, W)) is
+executed identically under every larger window -/
+theorem applyCopy_lz77_window_mono (wo : WordOracle) (W W' np nd mlen done cl : Nat) (out : Bytes) (ring : List Int)
+    (ds extra : Nat) (d : Int) (upd : Bool) (hW : W ≤ W')
+    (hd : rfcDistance np nd ring ds extra = some (d, upd)) (hle : d.toNat ≤ min out.length W) :
+    applyCopy wo W' np nd mlen done cl out ring ds extra = applyCopy wo W np nd mlen done cl out ring ds extra := by
+  unfold applyCopy
+  simp only [hd]
+  have h' : d.toNat ≤ min out.length W' := by omega
+  simp only [hle, h', if_true]
+
+example : (262128 : Nat) = 2 ^ 18 - 16 := by decide
+example : declaredWbits { (default : GenParams) with quality := 1, lgwin := 10 } = 18 ∧
+    declaredWbits { (default : GenParams) with quality := 0, lgwin := 22 } = 22 := by decide
 
 /-! ## the composition -/
 
